@@ -58,18 +58,57 @@ pub fn oracle(case: &SpCase, res: &SpResult) -> (Option<(String, String)>, Vec<&
     let mut canon: Option<(u16, u32, u32, i32, u64)> = None; // (ack, wnd, dup count, expected rel to retransmit, t of advancing ack)
     let mut limit_hit_at: Option<u64> = None;
     let mut data_after_limit = false;
+    // SACK evidence in any episode: `busy_until` = highest seq sent when a recovery episode (or a timeout) may have
+    // started; until the cumulative ack reaches it the endpoint may legitimately ignore further evidence
+    let mut busy_until: Option<i32> = None;
+    // the peer has been honest so far: never acknowledged (cumulatively or selectively) a packet that was not sent,
+    // never moved its ack backwards. Only then is the endpoint's recovery state predictable from outside.
+    let mut honest = true;
+    let mut t_arm_latest: Option<u64> = None; // latest instant strictly before the current one at which the timer was (re)armed for sure
+    let mut t_arm_next: Option<u64> = None;
 
     for ev in sp::events(res) {
+        let t_ev = match &ev { Ev::Rx(r, _) | Ev::Tx(r, _) => r.t_us };
+        if let Some(a) = t_arm_next { if t_ev > a { t_arm_latest = Some(a); t_arm_next = None; } }
         match ev {
             Ev::Rx(r, p) => {
                 if p.ptype == refparse::ST_SYN || p.conn_id != res.id_to_sock { continue; }
                 handshake_done = true;
                 let cum_before = obs.st.cum;
                 let was_recovery = obs.st.poss_recovery;
+                {
+                    let a = obs.rel(p.ack);
+                    let top = obs.highest.max(obs.fin_rel.unwrap_or(-1));
+                    if a > top || a < cum_before { honest = false; }
+                    if p.sack_bits().iter().enumerate().any(|(i, b)| *b && a + 2 + i as i32 > obs.highest) { honest = false; }
+                    if p.last_ext(1).is_some_and(|e| e.len() != 4 && e.len() != 8) { honest = false; }
+                }
                 obs.on_rx(r.t_us, p);
                 last_rx_t = Some(r.t_us);
                 chain = None; // something was delivered to the endpoint: the quiet interval ends
                 if p.last_ext(1).is_some() { sack_processed = true; }
+                if busy_until.is_some_and(|b| obs.st.cum >= b) { busy_until = None; }
+                if obs.st.cum > cum_before { t_arm_next = Some(r.t_us); }
+                // one SACK naming >= 3 packets this endpoint really sent, beyond a missing one that it sent too:
+                // "equivalent selective-ACK evidence" — outside an episode the missing packet is retransmitted at once
+                {
+                    let held: Vec<i32> = p.sack_bits().iter().take(64).enumerate().filter(|(_, b)| **b).map(|(i, _)| obs.rel(p.ack) + 2 + i as i32).filter(|k| *k > obs.st.cum && obs.segs.contains_key(k)).collect();
+                    let missing = obs.st.cum + 1;
+                    let evidence = held.len() >= 3 && obs.rel(p.ack) == obs.st.cum && obs.segs.contains_key(&missing) && !obs.st.sacked.contains(&missing);
+                    if evidence {
+                        if honest && busy_until.is_none() && obs.prev.sack_streak == 0 && obs.prev.dup_count == 0 {
+                            let ok = res.log.iter().any(|x| x.src == sock && x.t_us == r.t_us && x.idx > r.idx && x.pkt.as_ref().is_some_and(|q| q.ptype == refparse::ST_DATA && obs.rel(q.seq) == missing));
+                            if !ok {
+                                viol!("fast-retransmit-missing", "log #{}: a selective ack delivered at t={} us reports {} packets held beyond the missing seq {} while no recovery episode or timeout is in progress (everything sent before the last episode is acknowledged), but seq {} was not retransmitted at that instant", r.idx, r.t_us, held.len(), first.wrapping_add(missing as u16), first.wrapping_add(missing as u16));
+                            }
+                            labels.insert(if ever_recovery || ever_rto { "fast_rtx_sack_checked_later_episode" } else { "fast_rtx_sack_checked" });
+                        }
+                    }
+                    // any duplicate / SACK evidence may start an episode
+                    if (obs.st.sack_streak > 0 || obs.st.dup_count > 0) && busy_until.is_none() {
+                        busy_until = Some(obs.highest);
+                    }
+                }
                 // canonical pattern: advancing pure ACK followed by identical pure ACKs
                 let pure = p.ptype == refparse::ST_STATE && p.last_ext(1).is_none();
                 let unacked = obs.unacked_count(&obs.st);
@@ -108,6 +147,7 @@ pub fn oracle(case: &SpCase, res: &SpResult) -> (Option<(String, String)>, Vec<&
                 if p.ptype != refparse::ST_DATA { continue; }
                 if limit_hit_at.is_some() { data_after_limit = true; }
                 let (k, kind) = obs.on_tx_data(r.t_us, p);
+                t_arm_next = Some(r.t_us);
                 let g = obs.segs[&k].clone();
                 // (d) bounded number of transmissions
                 // a probe that expired is re-cut into a new (shorter) segment under the same number;
@@ -141,9 +181,12 @@ pub fn oracle(case: &SpCase, res: &SpResult) -> (Option<(String, String)>, Vec<&
                         // retransmission by timeout
                         rto_count += 1;
                         ever_rto = true;
+                        busy_until = Some(busy_until.map_or(obs.highest, |b| b.max(obs.highest)));
                         canon = None; // an RTO episode is in progress: duplicates are not acted upon
                         let age = r.t_us - g.times[n - 2];
-                        if !in_recovery && age + TOL_US < MIN_RTO_US {
+                        // (the single retransmission timer is restarted by acknowledgements; with a peer whose acks name
+                        // packets that were never sent, or go backwards, the instant of its last restart cannot be told)
+                        if honest && !in_recovery && age + TOL_US < MIN_RTO_US {
                             viol!("rto-too-early", "log #{}: seq {} retransmitted by timer only {} us after its previous transmission (minimum RTO is 200 ms) without duplicate-ACK or SACK evidence", r.idx, p.seq, age);
                         }
                         match &mut chain {
@@ -179,7 +222,10 @@ pub fn oracle(case: &SpCase, res: &SpResult) -> (Option<(String, String)>, Vec<&
                     } else if !timer_driven {
                         if in_recovery { fast_rtx += 1; }
                         // canonical pattern: no retransmission before the third duplicate
-                        if let Some((a, _, n, ck, _)) = canon {
+                        // (a peer packet may fall on the very instant the retransmission timer expires; the timer is
+                        // armed by sends and advancing acks and runs for at least 200 ms)
+                        let timer_possible = t_arm_latest.is_some_and(|a| r.t_us >= a + MIN_RTO_US);
+                        if let Some((a, _, n, ck, _)) = canon.filter(|_| !timer_possible) {
                             if n < 3 && ck == k && !ambiguous_is_third(n) {
                                 viol!("fast-retransmit-too-early", "log #{}: seq {} retransmitted after only {} duplicate(s) of ack_nr {} and no SACK (three are required)", r.idx, p.seq, n, a);
                             }
@@ -245,6 +291,41 @@ fn canon_strategy() -> BoxedStrategy<SpCase> {
         .boxed()
 }
 
+/// two loss episodes with an honest selective-ack peer: the second loss right at / near the point up to
+/// which the first episode had to be acknowledged
+fn canon2_strategy() -> BoxedStrategy<SpCase> {
+    (txgen::tx_sock_cfg(), any::<bool>(), any::<u16>(), any::<u16>(), any::<u64>(), 2usize..6, 0i16..4, 0u8..3, 0u8..3, prop_oneof![Just(1u32), Just(5), Just(30)], 0usize..4)
+        .prop_map(|(mut sock, incoming, peer_isn, conn_id, key, rounds, back, skip1, skip2, gap, rounds2)| {
+            sock.tx_init = 1 << 20;
+            sock.tx_max = 1 << 20;
+            let seg = sock.max_payload().max(1) as u32;
+            let w = 4u32 << 20;
+            let mut steps = vec![Step::R(crate::sim::app::ROp::ReadToEnd { buf: 4096 }), Step::W(WOp::Write { n: seg * 120, chunk: 1 << 20 })];
+            for _ in 0..rounds {
+                steps.push(Step::Adv(gap));
+                steps.push(Step::Peer(PeerOp::Ack { back: 0, wnd: w, sack: None }));
+            }
+            // episode 1: the oldest outstanding packet is missing, >= 3 later ones are held
+            steps.push(Step::Adv(gap));
+            steps.push(Step::Peer(PeerOp::SackHeld { adv: 0, skip: skip1, count: 4, wnd: w }));
+            steps.push(Step::Adv(gap));
+            // everything sent so far arrives: the ack lands on, or `back` short of, the newest packet
+            steps.push(Step::Peer(PeerOp::Ack { back, wnd: w, sack: None }));
+            for _ in 0..rounds2 {
+                steps.push(Step::Adv(gap));
+                steps.push(Step::Peer(PeerOp::Ack { back: 0, wnd: w, sack: None }));
+            }
+            // episode 2
+            steps.push(Step::Adv(gap));
+            steps.push(Step::Peer(PeerOp::SackHeld { adv: 0, skip: skip2, count: 4, wnd: w }));
+            steps.push(Step::Adv(150));
+            steps.push(Step::Peer(PeerOp::Ack { back: 0, wnd: w, sack: None }));
+            steps.push(Step::Adv(150));
+            SpCase { sock, incoming, peer_isn, conn_id, peer_wnd: w, complete_handshake: true, key, steps, linger_ms: 100, discipline: true, bystander: None }
+        })
+        .boxed()
+}
+
 pub struct Sp;
 impl CheckDef for Sp {
     type Case = Case;
@@ -254,6 +335,7 @@ impl CheckDef for Sp {
             5 => txgen::strategy(TxGen { class: AckClass::Full, max_steps: tier.pick(70, 160), window_games: false, max_write: tier.pick(40_000, 200_000), long_silence: true }),
             1 => txgen::strategy(TxGen { class: AckClass::Cumulative, max_steps: tier.pick(40, 80), window_games: false, max_write: 20_000, long_silence: true }),
             2 => canon_strategy(),
+            2 => canon2_strategy(),
         ]
         .prop_map(|mut sp| {
             // large inactivity limits let the back-off reach the 60 s cap
@@ -283,7 +365,7 @@ pub fn run(ctx: &mut Ctx) {
     ctx.rule("SP: the endpoint writes 1..200 segments; the scripted peer produces generated acknowledgement histories (cumulative advances, k identical ACKs, SACK bitmaps of 1/4/8/32 bytes, stale ACKs, ACKs beyond what was sent, silence up to 140 s, peer data) plus canonical fast-retransmit scenarios; max_retransmissions 1..7, inactivity limit 10 s or 1 h. Oracle over the wire log: acked/SACKed seq never retransmitted, stable content, timer retransmissions not before 200 ms, successive timeouts double (400 ms..60 s, +-2 ms), only the oldest segment per timeout, <= 1+max_retransmissions transmissions then failure, third duplicate => retransmission at that instant and not before. non-trivial = (timeout chain >= 2 or fast retransmit) and >= 1 SACK processed; distinct by hash of (seq, transmission count, timer-driven) sequence");
     ctx.assume("an ack injected at the same instant as a retransmission counts as not yet processed");
     ctx.replay_corpus::<Sp>();
-    ctx.run_generated::<Sp>(ctx.tier.pick(6_000, 200_000));
+    ctx.run_generated::<Sp>(ctx.tier.pick(60_000, 200_000));
 }
 
 pub fn replay(v: &Value) -> Option<i32> {
